@@ -55,6 +55,7 @@ def record(b, o, t, cart, f):
             FB = fg.get_full_borders().tocoo()
             FD = fg.get_full_distances().tocoo()
             V = np.asarray(fg.get_total_volumes(), dtype=float)
+            V = np.asarray(fg.get_total_volumes(), dtype=float)        # asked twice: the second answer is the one that is checked
     except Exception as ex:
         rec["err"] = type(ex).__name__
         return rec
